@@ -295,6 +295,40 @@ def find(repo):
     return out
 
 
+def _result_edits(repo, fname):
+    """(node, text) for in-place edits of a value obtained by calling
+    `fname()` / `<mod>.fname()` anywhere in the package"""
+    out = []
+    edits = MUT | {"sort", "reverse", "fill", "resize"}
+    for m, q, f in repo.all_funcs():
+        held = set()
+        for st in walk_no_nested(f, False):
+            if isinstance(st, ast.Assign) and len(st.targets) == 1 and \
+                    isinstance(st.targets[0], ast.Name) and isinstance(
+                        st.value, ast.Call) and (call_name(st.value) or ""
+                                                 ).split(".")[-1] == fname:
+                held.add(st.targets[0].id)
+
+        def is_result(e):
+            return (isinstance(e, ast.Name) and e.id in held) or (
+                isinstance(e, ast.Call) and (call_name(e) or "").split(
+                    ".")[-1] == fname)
+        for n in walk_no_nested(f, False):
+            if isinstance(n, ast.Call) and isinstance(
+                    n.func, ast.Attribute) and n.func.attr in edits and \
+                    is_result(n.func.value):
+                out.append((n, norm(n)))
+            elif isinstance(n, ast.AugAssign) and (is_result(n.target) or (
+                    isinstance(n.target, ast.Subscript)
+                    and is_result(n.target.value))):
+                out.append((n, norm(n)))
+            elif isinstance(n, (ast.Assign, ast.Delete)):
+                for t in (n.targets):
+                    if isinstance(t, ast.Subscript) and is_result(t.value):
+                        out.append((n, norm(n)))
+    return out
+
+
 def rule(ctx, files):
     """`files`: the property's anchored source files (repo-relative)."""
     from .callgraph import CallGraph
@@ -315,6 +349,14 @@ def rule(ctx, files):
         n += 1
         if (m.name, q) in BASELINE and kind == "decorator":
             ctx.ok(node, f"memoised {m.name}.{q}: {BASELINE[(m.name, q)]}")
+            # the one object every caller gets is never edited by a caller
+            for site, how in _result_edits(repo, q.rsplit(".", 1)[-1]):
+                ctx.fail(site, f"result of memoised {m.name}.{q} left "
+                         "unchanged by its callers",
+                         f"the result of the memoised {m.name}.{q} - the "
+                         f"same object for every caller - is edited in place "
+                         f"(`{how[:60]}`): every later call returns the "
+                         "edited object")
             continue
         if kind == "closure":
             ctx.fail(node, f"closure state in {m.name}.{q}",
